@@ -145,15 +145,10 @@ class Cost:
             w[bb] = cost
         # loop multipliers
         mult = {bb: 1 for bb in w}
+        from rules_typestate import loop_bound
         for head, blocks in body.loops():
-            trip = INF
-            for x in blocks:
-                c = ctx.call_at(body, x) if body.term(x)["k"] == "call" else None
-                if c is not None and c.tname == "core::ops::Range::next":
-                    tr = _range_trip(ctx, body, c)
-                    # the Range must be this loop's own driver: its next() call is in the loop and the loop exits on its None
-                    if tr is not None:
-                        trip = tr
+            lb = loop_bound(ctx, body, head, blocks)
+            trip = lb["trip"] if lb is not None and lb["trip"] is not None else INF
             for x in blocks:
                 if x in mult:
                     mult[x] = mult[x] * trip
